@@ -54,13 +54,17 @@ func leafCovers(name string, namesOK bool) bool {
 	return false
 }
 
-func c14Scenario(clients []gridClient) *explore.Scenario {
+func c14Scenario(name string, clients []gridClient, withECH bool) *explore.Scenario {
 	certs := c14Certs()
 	return &explore.Scenario{
-		Name: "verification-knobs",
+		Name: name,
 		Run: func(x *explore.X) (r explore.Result) {
 			g := clients[x.Choose("client", len(clients))]
-			vers := []uint16{tls.VersionTLS13, tls.VersionTLS12}[x.Choose("version", 2)]
+			versions := []uint16{tls.VersionTLS13, tls.VersionTLS12}
+			if withECH {
+				versions = versions[:1]
+			}
+			vers := versions[x.Choose("version", len(versions))]
 			ck := certs[x.Choose("cert", len(certs))]
 			serverName := []string{"example.com", "nomatch.example"}[x.Choose("servername", 2)]
 			nameToVerify := []string{"", "*", "a.example", "nomatch.example"}[x.Choose("nametoverify", 4)]
@@ -78,16 +82,28 @@ func c14Scenario(clients []gridClient) *explore.Scenario {
 				r.Obs = "version-not-offered"
 				return
 			}
+			var ech *peer.ECH
+			if withECH {
+				ech = peer.MakeECH(peer.ECHParams{ConfigID: 7, PublicName: "public.example", MaxNameLen: 32})
+			}
 			mkClient := func() *tls.Config {
 				c := g.config(serverName)
 				c.InsecureServerNameToVerify = nameToVerify
 				c.InsecureSkipTimeVerify = skipTime
 				c.InsecureSkipVerify = skipVerify
+				if withECH {
+					// ECH offered and accepted: the same knobs govern the inner name's certificate
+					c.EncryptedClientHelloConfigList = ech.ConfigList
+					c.MinVersion = tls.VersionTLS13
+				}
 				return c
 			}
 			scfg := peer.ServerConfig(ck.cert())
 			scfg.MaxVersion = vers
-			what := fmt.Sprintf("%s vers=%04x cert=%s ServerName=%s NameToVerify=%q SkipTime=%v SkipVerify=%v resumed=%d", g.Name, vers, ck.name, serverName, nameToVerify, skipTime, skipVerify, resumeMode)
+			if withECH {
+				scfg.EncryptedClientHelloKeys = []tls.EncryptedClientHelloKey{ech.Key}
+			}
+			what := fmt.Sprintf("%s vers=%04x cert=%s ServerName=%s NameToVerify=%q SkipTime=%v SkipVerify=%v resumed=%d ech=%v", g.Name, vers, ck.name, serverName, nameToVerify, skipTime, skipVerify, resumeMode, withECH)
 			// reference predicate
 			verifyName := serverName
 			checkName := true
@@ -124,6 +140,9 @@ func c14Scenario(clients []gridClient) *explore.Scenario {
 				return
 			}
 			got := hs.CErr == nil
+			if withECH && got && !hs.U.ConnectionState().ECHAccepted {
+				r.Violate("INFRA|c14-ech-not-accepted", "%s: the accepting server did not accept ECH", what)
+			}
 			r.Nontrivial = true
 			r.Class = what
 			didResume := got && hs.U.ConnectionState().DidResume
@@ -135,7 +154,11 @@ func c14Scenario(clients []gridClient) *explore.Scenario {
 				if want {
 					kind = "rejected-but-must-succeed"
 				}
-				r.Violate(fmt.Sprintf("C14|%s|cert=%s|nametoverify=%q|skiptime=%v|resumed=%d|didresume=%v", kind, ck.name, nameToVerify, skipTime, resumeMode, didResume),
+				echTag := ""
+				if withECH {
+					echTag = "|ech-accepted"
+				}
+				r.Violate(fmt.Sprintf("C14|%s|cert=%s|nametoverify=%q|skiptime=%v|resumed=%d|didresume=%v%s", kind, ck.name, nameToVerify, skipTime, resumeMode, didResume, echTag),
 					"%s: handshake result %v (err %v), reference predicate says success=%v", what, got, hs.CErr, want)
 			} else if !got {
 				var cve *tls.CertificateVerificationError
@@ -153,7 +176,7 @@ func c14Scenario(clients []gridClient) *explore.Scenario {
 }
 
 // c14ECH: ECH accepted / rejected with the public-name certificate.
-func c14ECH() *explore.Scenario {
+func c14ECHClients() []gridClient {
 	var clients []gridClient
 	for _, n := range AllIDs() {
 		switch n.Name {
@@ -161,6 +184,11 @@ func c14ECH() *explore.Scenario {
 			clients = append(clients, gridClient{Name: n.Name, ID: n.ID, PSK: specHasPSK(n.ID)})
 		}
 	}
+	return clients
+}
+
+func c14ECH() *explore.Scenario {
+	clients := c14ECHClients()
 	return &explore.Scenario{
 		Name: "ech-accepted-and-rejected",
 		Run: func(x *explore.X) (r explore.Result) {
@@ -198,7 +226,28 @@ func c14ECH() *explore.Scenario {
 					scfg.Certificates = []tls.Certificate{f.ECDSA}
 				}
 			}
-			hs := peer.Run(ccfg, g.ID, scfg, peer.Opts{Prepare: g.prepare(), Echo: true})
+			prep := g.prepare()
+			// a caller that removed the SNI extension from the parrot: the public-name rule must not depend on it
+			if x.Choose("removesni", 2) == 1 {
+				if isGolang(g.ID) {
+					r.Obs = "n/a"
+					return
+				}
+				inner := prep
+				prep = func(u *tls.UConn) error {
+					if inner != nil {
+						if err := inner(u); err != nil {
+							return err
+						}
+					}
+					if err := u.BuildHandshakeState(); err != nil {
+						return err
+					}
+					return u.RemoveSNIExtension()
+				}
+				what += " RemoveSNIExtension"
+			}
+			hs := peer.Run(ccfg, g.ID, scfg, peer.Opts{Prepare: prep, Echo: true})
 			if hs.CPanic != "" {
 				r.Violate("C14|ech|panic", "%s: %s", what, truncStr(hs.CPanic, 300))
 				return
@@ -251,13 +300,13 @@ func c14Scenarios(thorough bool) []*explore.Scenario {
 			cl = append(cl, c14Clients()[5])
 		}
 	}
-	return []*explore.Scenario{c14Scenario(cl), c14ECH()}
+	return []*explore.Scenario{c14Scenario("verification-knobs", cl, false), c14Scenario("verification-knobs-under-accepted-ech", c14ECHClients(), true), c14ECH()}
 }
 
 func init() {
 	register(&Prop{ID: "C14", Level: "exploration", Variant: "A", Scenarios: c14Scenarios,
 		Run: func(c *explore.Check, thorough bool) {
-			c.Rule = "full product of {4 (6) clients} x version {1.3,1.2} x certificate {valid, wrong name, untrusted root, expired, not yet valid} x ServerName {matching, other} x InsecureServerNameToVerify {'', '*', matching, other} x InsecureSkipTimeVerify x InsecureSkipVerify x {fresh, resumed from a session cached by an unverified first connection}: success must equal a reference predicate and failures must be CertificateVerificationError; ECH: 4 clients x {accepted, rejected with / without retry configs} x public-name certificate {good, untrusted, secret-name only} x name check on/off. distinct = configuration"
+			c.Rule = "full product of {4 (6) clients} x version {1.3,1.2} x certificate {valid, wrong name, untrusted root, expired, not yet valid} x ServerName {matching, other} x InsecureServerNameToVerify {'', '*', matching, other} x InsecureSkipTimeVerify x InsecureSkipVerify x {fresh, resumed from a session cached by an unverified / a leniently verified first connection}, and the same product at TLS 1.3 with ECH offered and accepted (4 ECH-capable clients): success must equal a reference predicate and failures must be CertificateVerificationError; ECH: 4 clients x {accepted, rejected with / without retry configs} x public-name certificate {good, untrusted, secret-name only} x name check on/off. distinct = configuration"
 			c.Assumptions = []string{"reference predicate written from the Config field documentation", "fixture PKI with a fixed clock"}
 			runAll(c, c14Scenarios(thorough), 0)
 			c.Gate(c.Total.Counters["resumed_connections"] > 20, "non-vacuity: %d resumed connections", c.Total.Counters["resumed_connections"])
